@@ -110,7 +110,7 @@ CLAIMED = {
              "novelty and tournament steps); an invocation log is the oracle: the search returns, n <= total < n + batch, total == counter, and no "
              "check before the last one already met the budget. EvaluationBudget's predicate is decided for symbolic counter and limit up to 10^6, "
              "AnyOf as a short-circuit disjunction over symbolic members, TargetFitness against a reference stop point over all fitness histories. "
-             "Non-termination shows up as loop-fuel exhaustion and is replayed. Bounds: n <= 6 (thorough 10), sizes <= 3-4.",
+             "Non-termination shows up as loop-fuel exhaustion and is replayed. Bounds: n <= 6 (thorough: 10, GP loops 7-8), sizes <= 3-4.",
         design_ref="DESIGN.md section 4 (C14)",
     ),
     "C13": dict(
